@@ -46,7 +46,7 @@ macro_rules! hist_check {
 }
 
 fn base() -> DmlCfg {
-    DmlCfg { tables: 1, pk: false, composite_pk: false, uniques: false, not_null: false, checks: false, fks: false, self_fk: false, user_indexes: false, unique_indexes: false, max_rows: 10, key_updates: true, inline_fk: false }
+    DmlCfg { tables: 1, pk: false, composite_pk: false, uniques: false, not_null: false, checks: false, fks: false, self_fk: false, user_indexes: false, unique_indexes: false, max_rows: 10, key_updates: true, inline_fk: false, setnull_on_notnull: true }
 }
 
 hist_check!(
@@ -80,7 +80,7 @@ hist_check!(
     C11,
     "C11",
     Focus::C11,
-    |_g: &GenCfg| DmlCfg { tables: 2, pk: true, composite_pk: true, uniques: true, not_null: true, checks: true, fks: true, user_indexes: true, unique_indexes: true, ..base() },
+    |g: &GenCfg| DmlCfg { tables: 3, pk: true, composite_pk: true, uniques: true, not_null: true, checks: true, fks: true, user_indexes: true, unique_indexes: true, setnull_on_notnull: !g.avoiding("c11.changed_on_error.update.not_null") && !g.avoiding("c11.changed_on_error.delete.not_null"), ..base() },
     400_000,
     10_000_000,
     14,
@@ -92,7 +92,7 @@ hist_check!(
     C12,
     "C12",
     Focus::C12,
-    |g: &GenCfg| DmlCfg { tables: 3, pk: true, fks: true, self_fk: true, not_null: true, inline_fk: !g.avoiding("c12.trigger.column_level_references"), ..base() },
+    |g: &GenCfg| DmlCfg { tables: 3, pk: true, fks: true, self_fk: false, not_null: true, inline_fk: true, setnull_on_notnull: !g.avoiding("c12.orphan.after_failed_update") && !g.avoiding("c12.orphan.after_failed_delete"), ..base() },
     400_000,
     10_000_000,
     14,
